@@ -17,7 +17,10 @@ RULE = (
     "Hypothesis draws acyclic sets of 3-8 decay tables (0-4 lines, 0-4 daughters, repeated daughters, empty blocks at every "
     "depth, aliases that decay and aliases that do not); for every mother with an independently computed path count <= 3000 "
     "expand_decay_modes(M) must have exactly that length and, read back with a bracket-matching reader, be the same multiset "
-    "of trees as the reference enumeration (decaying aliases shown under their target). Shipped master files: mothers whose "
+    "of trees as the reference enumeration (decaying aliases shown under their target). Half of the sets also have 1-2 CopyDecay "
+    "statements whose new name (1 in 3 also declared an alias) replaces some uses of its source as a daughter: a copied table is "
+    "shown under its own name unless that name is an alias. A further unit has a single line whose daughters' counts multiply "
+    "to 10000-20000 (14 shapes, e.g. 11^4, 101^2, 2^14, one daughter with 10001 lines). Shipped master files: mothers whose "
     "path count is below 5000. Names have balanced parentheses (DESIGN 6.9). Non-trivial: count >=4 with a line having >=3 "
     "daughters of which >=2 decay, or an alias below the top level, or a reachable empty block."
 )
@@ -61,9 +64,69 @@ def reach(tables, m, seen=None):
     return seen
 
 
+BIG_SHAPES = ((11, 11, 11, 11), (101, 101), (22, 22, 22), (5, 5, 5, 5, 5, 4), (150, 70), (10, 10, 10, 11), (100, 100), (10, 10, 10, 10),
+              (10001,), (2,) * 14, (3,) * 9, (7, 7, 7, 7, 5), (130, 80, 1), (10, 1001))
+
+
+@st.composite
+def c10_file(draw):
+    """table_set_file, to which 0-2 CopyDecay statements are added: the new name replaces some uses of its source as a
+    daughter (the set stays acyclic); the new name may in addition be declared an alias of some particle."""
+    from .. import names as N
+
+    f = draw(G.table_set_file())
+    stmts = f["stmts"]
+    decays = [s_ for s_ in stmts if s_["k"] == "decay"]
+    used = {d for b in decays for ln in b["lines"] for d in ln["d"]}
+    cands = sorted(used & {b["m"] for b in decays})
+    if not cands or draw(st.sampled_from((False, True))):
+        return f
+    names_in_file = used | {b["m"] for b in decays}
+    for i in range(draw(st.integers(1, 2))):
+        src = draw(st.sampled_from(cands))
+        new = f"MyCopy{i}"
+        for b in decays:
+            for ln in b["lines"]:
+                ln["d"] = [new if d == src and draw(st.booleans()) else d for d in ln["d"]]
+        stmts.insert(draw(st.integers(0, len(stmts))), {"k": "copydecay", "new": new, "old": src})
+        if draw(st.sampled_from((False, False, True))):
+            tgt = draw(st.sampled_from([t for t in N.evtgen_safe()[:200] if t not in names_in_file]))
+            stmts.insert(draw(st.integers(0, len(stmts))), {"k": "alias", "a": new, "p": tgt})
+    return f
+
+
+@st.composite
+def big_file(draw):
+    """One decay line whose daughters' own counts multiply to 10000-20000 (the bound of the ordinary cases is 3000 per
+    mother): a product that large must still be enumerated completely."""
+    shape = list(draw(st.sampled_from(BIG_SHAPES)))
+    shape = list(draw(st.permutations(shape)))
+    stmts, ds = [], []
+    for i, n in enumerate(shape):
+        d = f"zd{i}"
+        ds.append(d)
+        lines = [{"bf": "0.001", "d": [f"s{i}x{j}"] + (["gamma"] if draw(st.integers(0, 9)) == 0 else []), "photos": False, "model": "PHSP",
+                  "alias": False, "params": []} for j in range(n)]
+        stmts.append({"k": "decay", "m": d, "lines": lines})
+    extra = draw(st.lists(st.sampled_from(("K+", "pi-", "gamma")), max_size=2))
+    top = [{"bf": "0.5", "d": list(draw(st.permutations(ds + extra))), "photos": False, "model": "PHSP", "alias": False, "params": []}]
+    if draw(st.booleans()):
+        top.insert(draw(st.integers(0, 1)), {"bf": "0.5", "d": ["K+", ds[0]], "photos": False, "model": "PHSP", "alias": False, "params": []})
+    stmts.append({"k": "decay", "m": "zz_top", "lines": top})
+    stmts = list(draw(st.permutations(stmts)))
+    return {"stmts": stmts, "layout": [], "crlf": False, "end": False, "big": True}
+
+
 def check_case(f, rec):
     text = G.render(f)
-    tables = R.decay_tables(f)
+    tables = {}
+    for m_, _o, ls_ in R.all_tables(f, include_cc=False):  # Decay blocks and CopyDecay'd tables
+        tables.setdefault(m_, ls_)
+    if f.get("big"):
+        p = make_parser(text, ID)
+        n = check_mother(p, tables, {}, "zz_top")
+        rec.case(f, True, ["single-line-product>=10000" if n >= 10000 else "big"], sample=lambda: {"shape": sorted(len(v) for v in tables.values()), "count": n})
+        return
     aliases = {s["a"]: s["p"] for s in f["stmts"] if s["k"] == "alias"}
     p = make_parser(text, ID)
     nt = False
@@ -88,6 +151,9 @@ def check_case(f, rec):
             classes.add("reachable-empty-block(F12)")
         if m in aliases:
             classes.add("mother-is-alias")
+        copied = {s_["new"] for s_ in f["stmts"] if s_["k"] == "copydecay"}
+        if copied & below:
+            classes.add("copied-table-below-top" + ("(also-alias)" if copied & below & set(aliases) else ""))
         if n == 0:
             classes.add("count-0")
         elif n >= 100:
@@ -147,6 +213,7 @@ def replay(case, rec):
 def units(tier, seed):
     n = 200 if tier == "quick" else 3000
     u = [{"name": f"hyp{k:02d}", "kind": "hyp", "n": n} for k in range(14)]
+    u.append({"name": "big", "kind": "big", "n": 6 if tier == "quick" else 60})
     lim = 25 if tier == "quick" else None
     u.append({"name": "shipped-DECAY_LHCB", "kind": "shipped", "file": "DECAY_LHCB.DEC", "limit": lim})
     u.append({"name": "shipped-DECAY_BELLE2", "kind": "shipped", "file": "DECAY_BELLE2.DEC", "limit": lim})
@@ -156,5 +223,8 @@ def units(tier, seed):
 def run_unit(unit, seed, rec, tier):
     if unit["kind"] == "shipped":
         shipped_unit(unit["file"], rec, unit["limit"], seed=seed)
+    elif unit["kind"] == "big":
+        hyp_run(rec, big_file(), check_case, unit["n"], seed, render=lambda f: "(one line with a product of %s)" % sorted(
+            len(s_["lines"]) for s_ in f["stmts"] if s_["m"] != "zz_top"))
     else:
-        hyp_run(rec, G.table_set_file(), check_case, unit["n"], seed, render=lambda f: G.render(f))
+        hyp_run(rec, c10_file(), check_case, unit["n"], seed, render=lambda f: G.render(f))
